@@ -56,7 +56,7 @@ def sstep (c : SCache σ) : SOp σ → SCache σ × POut σ
   | .req rm m u sel =>
     match get c ⟨m, u, dots rm.n sel, sel⟩ with
     | none => (c, .noop)
-    | some s => (c, .early s.resp.status s.resp.body s.resp.tag (.raw s.resp.ra))
+    | some s => (c, .early s.resp.status s.resp.body s.resp.tag (.raw s.resp.ra) 0)
   | .fire i => ((fire c i).1, .fired (fire c i).2)
   | .skip d => (skip c d, .unit)
   | .adv d => ((adv c d).1, .advd (adv c d).2)
